@@ -2,6 +2,7 @@ package harness
 
 import (
 	"verifharness/sim"
+	"verifharness/worlds/lock"
 	"verifharness/worlds/timer"
 )
 
@@ -12,4 +13,5 @@ type worldDef struct {
 
 var worlds = map[string]worldDef{
 	"timer": {New: timer.New, Generate: timer.Generate},
+	"lock":  {New: lock.New, Generate: lock.Generate},
 }
